@@ -608,6 +608,304 @@ def template_part(ctx, thorough):
     ctx.count(len(traces), sum(len(t) - 1 for t in traces))
 
 
+# ---------------------------------------------------------------- splunk (a writer whose file is a transport)
+class _Peer:
+    """what the far end of the transport has received: a list of transmissions (bytes)"""
+
+    def __init__(self):
+        self.transmissions, self.fail_next, self.failed = [], False, False
+
+
+def _splunk_standins(sp, peer):
+    import types
+
+    class Sock:
+        def __init__(self, *a, **k):
+            pass
+
+        def connect(self, addr):
+            pass
+
+        def sendall(self, data):
+            peer.transmissions.append(bytes(data))
+
+        def close(self):
+            pass
+
+    class Resp:
+        def __init__(self, code):
+            self.status_code, self.text = code, "collector says no"
+
+    class Client:
+        def __init__(self, verify=True, headers=None):
+            pass
+
+        def post(self, url, data=None):
+            if peer.fail_next:
+                peer.fail_next, peer.failed = False, True
+                return Resp(503)
+            peer.transmissions.append(bytes(data))
+            return Resp(200)
+
+        def close(self):
+            pass
+
+    sp.socket = types.SimpleNamespace(socket=Sock, AF_INET=2, SOCK_STREAM=1, SOL_TCP=6)
+    sp.httpx = types.SimpleNamespace(Client=Client)
+    sp.HAS_HTTPX = True
+
+
+def _ids_of(body, sourcetype, http):
+    text = body.decode("utf-8", "surrogateescape")
+    if sourcetype != "json":
+        return [int(m) for m in re.findall(r'(?:^| )n="(\d+)"', text, re.M)]
+    out, dec, i = [], json.JSONDecoder(), 0
+    while i < len(text):
+        if text[i].isspace():
+            i += 1
+            continue
+        o, i = dec.raw_decode(text, i)
+        out.append((o["event"] if http else o)["n"])
+    return out
+
+
+def run_splunk_history(proto, sourcetype, ops, desc, entry):
+    """ops: (op, fail) -- fail: the collector answers the POST this call makes (if it makes one) with an error"""
+    import logging
+    import flow.record.adapter.splunk as sp
+    from flow.record import RecordWriter
+
+    logging.getLogger("flow.record").setLevel(logging.ERROR)
+    peer = _Peer()
+    saved = (sp.socket, getattr(sp, "httpx", None), sp.HAS_HTTPX)
+    _splunk_standins(sp, peer)
+    tr = [{"proto": "tcp" if proto == "tcp" else "http", "scheme": proto, "sourcetype": sourcetype, "entry": entry}]
+    try:
+        if entry == "url":
+            w = RecordWriter(f"splunk+{proto}://collector.example:8088?sourcetype={sourcetype}" + ("&token=abc" if proto != "tcp" else ""))
+        else:
+            w = sp.SplunkWriter(f"{proto}://collector.example:8088", sourcetype=sourcetype, token="abc" if proto != "tcp" else None)
+        n = 0
+        for op, fail in ops:
+            ev = {"op": op, "raised": False, "exc": "none"}
+            peer.fail_next, peer.failed = bool(fail), False
+            try:
+                if op == "write":
+                    n += 1
+                    w.write(desc(n, "v%d" % n, _generated=gen.GEN))
+                elif op == "flush":
+                    w.flush()
+                elif op == "close":
+                    w.close()
+                else:
+                    w.__exit__(None, None, None)
+            except Exception as e:
+                ev["raised"], ev["exc"] = True, type(e).__name__ + ":" + str(e)[:60]
+            ev["failed"] = peer.failed
+            peer.fail_next = False
+            try:
+                ev["sent"] = [_ids_of(b, sourcetype, proto != "tcp") for b in peer.transmissions]
+            except Exception as e:
+                ev["sent"], ev["exc"] = [[-1]], "unparsable transmission: " + type(e).__name__
+            tr.append(ev)
+        try:
+            w.close()
+        except Exception:
+            pass
+    finally:
+        sp.socket, sp.HAS_HTTPX = saved[0], saved[2]
+        if saved[1] is not None:
+            sp.httpx = saved[1]
+    return tr
+
+
+def _decompose(name):
+    p = 0
+    while name.startswith("rd_"):
+        p, name = p + 1, name[3:]
+    u = 1 if name.startswith("_") else 0
+    return [p, u, name[1:] if u else name]
+
+
+def _parse_kv(line):
+    """independent tokenizer of `name=None` / `name="...\" \\ ..."` pairs separated by single blanks"""
+    out, i = [], 0
+    while i < len(line):
+        j = line.index("=", i)
+        name = line[i:j]
+        i = j + 1
+        if line.startswith("None", i) and (i + 4 == len(line) or line[i + 4] == " "):
+            out.append((name, None))
+            i += 4
+        else:
+            if line[i] != '"':
+                raise ValueError("unquoted value")
+            i += 1
+            buf = []
+            while line[i] != '"':
+                if line[i] == "\\":
+                    i += 1
+                buf.append(line[i])
+                i += 1
+            i += 1
+            out.append((name, "".join(buf)))
+        if i < len(line):
+            if line[i] != " ":
+                raise ValueError("no blank between pairs")
+            i += 1
+    return out
+
+
+def splunk_render_cases(ctx, thorough):
+    import base64
+    import flow.record.adapter.splunk as sp
+    from flow.record import RecordDescriptor
+    from flow.record.jsonpacker import JsonRecordPacker
+
+    pool = ["host", "hostname", "source", "sourcetype", "tag", "type", "rdtag", "rdtype", "x", "ts", "rd_host", "rd_x", "rd_rd_x", "rd_rdtag", "index", "timestamp"]
+    texts = ["plain", 'say "hi"', "back\\slash", 'end\\', 'q"=" x=None', "None", "", " lead and trail ", "café 中", "a=b c=\"d\"", "two\nlines", "tab\there"]
+    cases = []
+    # escape_field_name on its own, name by name
+    names = pool + ["_source", "_generated", "_version", "rd__source", "n"]
+    cases.append({"kind": "escape", "fields": [_decompose(x) for x in names if x != "_version"], "found": [_decompose(sp.escape_field_name(x)) for x in names if x != "_version"],
+                  "raised": False, "values_ok": True, "own_ok": True, "exc": "none"})
+    for k in range(60 if not thorough else 600):
+        fl = ctx.rnd.sample(pool, ctx.rnd.randint(1, 5))
+        types_ = [("datetime" if f == "ts" and ctx.rnd.random() < 0.7 else ctx.rnd.choice(["string", "string", "bytes", "varint"])) for f in fl]
+        Dd = RecordDescriptor("spl/t%d" % (k % 5), [("varint", "n")] + list(zip(types_, fl)))
+        vals = []
+        for t in types_:
+            vals.append(None if ctx.rnd.random() < 0.2 else ctx.rnd.choice(texts) if t == "string" else bytes(ctx.rnd.getrandbits(8) for _ in range(ctx.rnd.randint(0, 5))) if t == "bytes"
+                        else ctx.rnd.choice([0, -1, 2**70]) if t == "varint" else dt.datetime(2020, 1, 2, 3, 4, 5, 6, tzinfo=dt.timezone.utc))
+        rec = Dd(k, *vals, _generated=gen.GEN, _source=ctx.rnd.choice([None, "src"]))
+        tag = ctx.rnd.choice([None, "T", "a tag"])     # (the tag is emitted verbatim, quotes and all: not part of the model)
+        allf = list(rec._desc.get_all_fields())
+        for kind in ("kv", "json", "httpjson"):
+            c = {"kind": kind, "fields": [_decompose(x) for x in allf], "found": [], "raised": False, "values_ok": True, "own_ok": True, "exc": "none", "tag": tag}
+            try:
+                if kind == "kv":
+                    line = sp.record_to_splunk_kv_line(rec, tag)
+                    pairs = _parse_kv(line)
+                    c["found"] = [_decompose(nm) for nm, _ in pairs]
+                    c["own_ok"] = pairs[0] == ("rdtype", Dd.name) and pairs[1] == ("rdtag", tag)
+                    want = []
+                    for f in allf:
+                        if f == "_version":
+                            continue
+                        v = getattr(rec, f)
+                        want.append(None if v is None else base64.b64encode(v).decode() if isinstance(v, bytes) else str(v))
+                    c["values_ok"] = [v for _, v in pairs[2:]] == want
+                else:
+                    packer = JsonRecordPacker(indent=None, pack_descriptors=False)
+                    text = (sp.record_to_splunk_tcp_api_json if kind == "json" else sp.record_to_splunk_http_api_json)(packer, rec, tag)
+                    o = json.loads(text)
+                    ev = o if kind == "json" else o["event"]
+                    c["found"] = [_decompose(nm) for nm in ev]
+                    c["own_ok"] = ev.get("rdtype") == Dd.name and ev.get("rdtag") == tag and "rdtag" in ev
+                    packed = json.loads(JsonRecordPacker(indent=None, pack_descriptors=False).pack(rec))
+                    c["values_ok"] = all(ev.get(sp_name) == packed[f] for f, sp_name in ((f, ("rd_" + f) if (f.startswith(("_", "rd_")) or f in sp.RESERVED_FIELDS) else f) for f in allf if f != "_version")
+                                         if True)
+                    if kind == "httpjson":
+                        hostv = next((getattr(rec, f) for f in ("hostname", "host") if f in fl and getattr(rec, f)), None)
+                        c["own_ok"] &= set(o) <= {"event", "host", "time"} and ("host" in o) == (hostv is not None)
+                        tsv = getattr(rec, "ts", None) if "ts" in fl else None
+                        if isinstance(tsv, dt.datetime):
+                            c["own_ok"] &= o.get("time") == tsv.timestamp()
+            except Exception as e:
+                c["raised"], c["exc"] = True, type(e).__name__ + ":" + str(e)[:80]
+            cases.append(c)
+            ctx.case(("splunk-render", kind, tuple(fl), tuple(types_), repr(vals)[:60], tag))
+    return cases
+
+
+def splunk_part(ctx, thorough):
+    ctx.design("Splunk", "MC_Splunk.cfg", "exhaustive: tcp / http transport, body limit 3, <=9 calls, collector errors anywhere; field-name escaping over 54 names",
+               actions=("Write", "Flush", "Close"), workers=4)
+    ctx.sensitivity("Splunk", "MC_Splunk_dev_CloseNoFlush.cfg", "close without a final POST must violate Delivered", "Delivered", workers=2)
+    if thorough:
+        ctx.sensitivity("Splunk", "MC_Splunk_dev_LimitOffByOne.cfg", "a body of limit + 1 records must violate BodyBound", "BodyBound", workers=2)
+        ctx.sensitivity("Splunk", "MC_Splunk_dev_EscapeOnce.cfg", "leaving rd_ names alone must violate EscapeInjective", "EscapeInjective", workers=2)
+    desc = D()
+    traces, metas = [], []
+    # code -> spec: all short histories, and long runs around the body limit of 20
+    short = [h for h in histories(4 if not thorough else 5)]
+    combos = [("tcp", "records", "url"), ("tcp", "json", "direct"), ("http", "json", "url"), ("https", "records", "direct"), ("http", "records", "url")]
+    for proto, st_, entry in combos:
+        for h in short:
+            ops = [(op, False) for op in h]
+            traces.append(run_splunk_history(proto, st_, ops, desc, entry))
+            metas.append((proto, st_, ops))
+            ctx.case(("splunk", proto, st_, " ".join(h)))
+        for nrec in (19, 20, 21, 39, 40, 41, 45):
+            for tail in (["close"], ["exit"], ["flush", "close"], ["close", "close"], ["flush", "write", "close"]):
+                ops = [("write", False)] * nrec + [(t, False) for t in tail]
+                traces.append(run_splunk_history(proto, st_, ops, desc, entry))
+                metas.append((proto, st_, ops))
+                ctx.case(("splunk-long", proto, st_, nrec, " ".join(tail)))
+    # spec -> code: behaviours simulated by TLC from Splunk.tla (limit 4), collector errors included, replayed with the
+    # stand-in told to answer with an error exactly where the behaviour has one -- the model's limit is not the code's, so
+    # these are judged in contract mode only
+    nsim = 0
+    for beh in simulate.behaviours("Splunk", "Sim_Splunk.cfg", 150 if not thorough else 1500, 14, ctx.seed + 23):
+        proto = beh[0][2]["proto"]
+        ops, prev = [], beh[0][2]
+        for a, args, stt in beh[1:]:
+            if a in ("Write", "Flush", "Close"):
+                ops.append((a.lower(), len(stt["dropped"]) > len(prev["dropped"])))
+            prev = stt
+        if not ops:
+            continue
+        traces.append(run_splunk_history(proto, ctx.rnd.choice(["json", "records"]), ops, desc, "direct"))
+        metas.append((proto, "sim", ops))
+        ctx.case(("splunk-sim", proto, " ".join(o + ("!" if f else "") for o, f in ops)))
+        nsim += 1
+    ctx.extra["splunk_behaviours_simulated_by_tlc"] = nsim
+    ctx.sample({"part": "splunk", "proto": metas[3][0], "history": metas[3][2], "trace": traces[3]})
+    path = os.path.join(common.scratch("c17"), "straces.json")
+    tlc.write_json(path, traces)
+    r = ctx.tlc("Trace_Splunk", "Trace_Splunk_contract.cfg", f"forwarding-writer traces, contract mode ({len(traces)} histories)", env={"TRACE_FILE": path})
+    bad = set()
+    for v in r.violations:
+        tid = v["state"].get("tid")
+        if tid is None:
+            raise MachineryError(f"cannot attribute counter-example: {v}")
+        if tid in bad:
+            continue
+        bad.add(tid)
+        proto, st_, ops = metas[tid - 1]
+        l = v["state"]["l"]
+        upto = ops[: l - 2]
+        ctx.violation({"part": "splunk", "check": v["inv"], "proto": proto, "sourcetype": st_, "records_written": sum(1 for o, _ in upto if o == "write"), "last_call": upto[-1][0] if upto else None},
+                      {"history": " ".join(o + ("!" if f else "") for o, f in upto), "failing_event": traces[tid - 1][l - 2] if l - 2 < len(traces[tid - 1]) else None})
+    rd = ctx.tlc("Trace_Splunk", "Trace_Splunk_design.cfg", "forwarding-writer traces, design mode (body boundaries at the limit of 20)", env={"TRACE_FILE": path})
+    drift = {v["state"].get("tid") for v in rd.violations if v["inv"] == "NotStuck"} - bad
+    drift = {t for t in drift if metas[t - 1][1] != "sim" or True}
+    for t in sorted(drift)[:3]:
+        print(f"MODEL-DRIFT property={PROP} splunk proto={metas[t-1][0]} history={' '.join(o for o, _ in metas[t-1][2])[:120]!r}")
+    if drift:
+        ctx.note(f"splunk: model drift on {len(drift)} traces")
+    ctx.count(len(traces), sum(len(t) - 1 for t in traces))
+    # renderings
+    cases = splunk_render_cases(ctx, thorough)
+    path = os.path.join(common.scratch("c17"), "scases.json")
+    tlc.write_json(path, cases)
+    r = ctx.tlc("Trace_SplunkNames", "Trace_SplunkNames.cfg", f"{len(cases)} renderings (key=value line, JSON, HTTP event JSON)", env={"TRACE_FILE": path})
+    seen = set()
+    for v in r.violations:
+        cid = v["state"].get("cid")
+        if cid is None:
+            raise MachineryError(f"cannot attribute counter-example: {v}")
+        if cid in seen:
+            continue
+        seen.add(cid)
+        c = cases[cid - 1]
+        # the renderings are outside C17's text (no file, no reader): reported as drift of the as-built model, not as a verdict
+        print(f"MODEL-DRIFT property={PROP} splunk rendering kind={c['kind']} exc={c['exc']} values_ok={c['values_ok']} own_ok={c['own_ok']} found={c['found']}"[:300])
+    if seen:
+        ctx.note(f"splunk: {len(seen)} renderings differ from Splunk.tla's naming rules")
+    ctx.count(len(cases), len(cases))
+
+
 def _double_rotation(pre, ops):
     exists = {p[0] for p in pre}
     cur = None
@@ -632,5 +930,6 @@ def run(tier):
     writers_part(ctx, thorough)
     split_part(ctx, thorough)
     template_part(ctx, thorough)
+    splunk_part(ctx, thorough)
     ctx.extra["rule"] = "bounded-exhaustive call histories per adapter kind; split: all (target, suffix length, limit, N, closing mode); template: all op sequences over 2 paths with ticks and pre-existing files"
     return ctx.finish()
